@@ -17,7 +17,7 @@ for k in ids:
     row = {'property': prop, 'applies': a.returncode == 0, 'seeds': {}}
     if a.returncode == 0:
         for s in (0, 1, 2):
-            env = dict(os.environ, PYTTB_REPO=wt, PYTHONPATH=wt, VERIF_NO_DRIFT='1', VERIF_SEED=str(s))
+            env = dict(os.environ, PYTTB_REPO=wt, PYTHONPATH=wt, VERIF_NO_DRIFT='1', VERIF_SEED=str(s), VERIF_EVIDENCE_DIR='/tmp/seed_evidence')
             r = run(['./check', prop, '--tier', 'quick'], cwd='/verif', env=env)
             viol = [l for l in r.stdout.split('\n') if l.startswith('VIOLATION')]
             row['seeds'][s] = {'rc': r.returncode, 'violation_lines': len(viol),
